@@ -18,7 +18,9 @@ META = {
         'work-list with the requested ranges; (snapshot) a local copy of the '
         'derived `references` property is never used after a call that can '
         'load a workbook (and so define names) without being re-read, on any '
-        'path including the exception edges; (drop) every path of add_cell '
+        'path including the exception edges; (bounds) row bounds are compared '
+        'as numbers and sizes are inclusive in every rectangle test the '
+        'work-list and add_cell rely on; (drop) every path of add_cell '
         'that discards a cell is a duplicate, a blank, or - for a constant '
         'covered by an array formula - is matched by the caller enqueuing the '
         'covering formula.'),
@@ -258,6 +260,8 @@ def rule_drop(ctx):
 def run(ctx):
     from .common import rule_cachekey
     from .modelstate import rule_snapshot
+    from .c03 import _bounds
     return [rule_worklist(ctx), rule_drop(ctx),
             rule_snapshot(ctx, 'C15', 'C15.snapshot'),
+            _bounds(ctx, 'C15'),
             rule_cachekey(ctx, 'C15', 'C15.cachekey', [EXCEL])]
